@@ -668,6 +668,7 @@ func TestRun(t *testing.T) {
 	}
 	stress(rec, seed)
 	wiring(rec, vr.Scale(6, 200))
+	serverSide(rec, vr.Scale(4, 40))
 	rec.Assume("reference limiter: per-path counter + FIFO, total limit as a FIFO semaphore; release order on return = total slot first, then the endpoint slot (passes to the head waiter)")
 }
 
